@@ -4,7 +4,10 @@
 
 use anyhow::bail;
 #[cfg(feature = "background_rotation")]
+#[cfg(not(log4rs_verif))]
 use parking_lot::{Condvar, Mutex};
+#[cfg(all(feature = "background_rotation", log4rs_verif))]
+use crate::verif::{Condvar, Mutex};
 #[cfg(feature = "background_rotation")]
 use std::sync::Arc;
 use std::{
@@ -133,6 +136,8 @@ impl Roll for FixedWindowRoller {
 
     #[cfg(feature = "background_rotation")]
     fn roll(&self, file: &Path) -> anyhow::Result<()> {
+        #[cfg(log4rs_verif)]
+        use crate::verif::std_shim as std;
         if self.count == 0 {
             return fs::remove_file(file).map_err(Into::into);
         }
